@@ -126,9 +126,13 @@ def main(argv=None):
         except subprocess.TimeoutExpired:
             bounded_proc.kill()
             bounded_err = "bounded stand-in timed out"
-    if bounded_proc is not None and bounded is None:
+    if bounded_proc is not None and bounded is None and not failing:
         print("checker error: bounded stand-in crashed:\n%s" % bounded_err)
         return 3
+    if bounded_proc is not None and bounded is None:
+        # the stand-in died (typically an exception escaping from the changed code itself) while deductive obligations fail:
+        # the failed obligations are reported; the crash is recorded, not mapped to a verdict of its own
+        print("note: bounded stand-in crashed (recorded in the evidence); reporting the failed obligations")
 
     known = load_known()
     os.makedirs(os.path.join(HERE, "replays", pid), exist_ok=True)
